@@ -36,7 +36,7 @@ def preload():
     import cirq  # noqa
     from tangelo.algorithms.variational import VQESolver  # noqa
     cirqstub.self_check()
-    for k in ("H2",):
+    for k in ("H2", "H4f"):
         mol(k)
 
 
@@ -143,6 +143,8 @@ def h_symmetry(env, opts, patt, n, which, canary=False):
     mapping, utd = opts.get("qubit_mapping", "jw"), opts.get("up_then_down", False)
     try:
         s = make_solver(env, opts)
+        if patt is None:
+            patt = "s" + "p" * (s.ansatz.n_var_params - 1)
         th = vec(env, "th", patt)
         with sym_alloc(env):
             H_before = s.qubit_hamiltonian
@@ -204,6 +206,71 @@ def h_symmetry(env, opts, patt, n, which, canary=False):
         env.check_eq(val, acc, f"operator_expectation('S^2') == <psi|S_-S_+ + S_z(S_z+1)|psi>  [jw, up_then_down={utd}]")
 
 
+def h_penalty(env, opts, patt, n, pen):
+    """VQESolver with penalty_terms: energy_estimation(theta) == <psi|H_molecule|psi> + sum_k mu_k <psi|(O_k - v_k)^2|psi>, the
+    molecular part taken from a second solver built without penalties, the penalty part from the decoded determinant amplitudes
+    (N, Sz: every encoding) or the textbook Fock-space action of S^2 (Jordan-Wigner)"""
+    opts = dict(opts)
+    molecule = mol(opts.pop("molecule_key"))
+    opts["molecule"] = molecule
+    mapping, utd = opts.get("qubit_mapping", "jw"), opts.get("up_then_down", False)
+    try:
+        s0 = make_solver(env, dict(opts))
+        s = make_solver(env, dict(opts, penalty_terms={k: list(v) for k, v in pen.items()}))
+        th = vec(env, "th", patt)
+        with sym_alloc(env):
+            e = s.energy_estimation(th)
+            st = full_circuit_state(s, n)
+    finally:
+        c02._restore()
+    n_so = molecule.n_active_sos
+    env.check_eq(e, R.expectation(st, n, dict(s.qubit_hamiltonian.terms)), "energy_estimation(theta) == <psi|H_solver|psi>")
+    # penalty part of the solver's Hamiltonian: H_solver - H_molecule, coefficients (rational by construction: prefactors and
+    # targets are small rationals) snapped to denominators <= 4096 when within 1e-9 -- float summation noise is not the subject
+    from fractions import Fraction
+    D = {}
+    with shim.concrete_mode():
+        diff = s.qubit_hamiltonian - s0.qubit_hamiltonian
+        for k, v in diff.terms.items():
+            v = complex(v)
+            fr, fi = Fraction(v.real).limit_denominator(4096), Fraction(v.imag).limit_denominator(4096)
+            assert abs(v.real - fr) < 1e-9 and abs(v.imag - fi) < 1e-9, (k, v)
+            if fr or fi:
+                D[k] = R.C(fr) + R.C(fi) * R.IMAG()
+    got = R.expectation(st, n, D)
+    want = R.C(0)
+    amps = decode_amplitudes(st, n_so, mapping, utd)
+    scbk = mapping.lower() == "scbk"
+    tot = R.C(0)
+    for f, a in amps.items():
+        na, nb = sum(f[0::2]), sum(f[1::2])
+        if scbk and ((na + nb) % 2 != molecule.n_active_electrons % 2 or na % 2 != ((molecule.n_active_electrons + molecule.active_spin) // 2) % 2):
+            continue
+        p = a * R.n_conj(a)
+        tot = tot + p
+        if "N" in pen:
+            want = want + R.C(pen["N"][0]) * (R.C(na + nb) - R.C(pen["N"][1])) ** 2 * p
+        if "Sz" in pen:
+            want = want + R.C(pen["Sz"][0]) * (R.C(na - nb) / 2 - R.C(pen["Sz"][1])) ** 2 * p
+    env.check_eq(tot, 1, "decoded determinants carry the whole norm")
+    if "S^2" in pen:
+        assert mapping.lower() == "jw"
+        from fractions import Fraction
+        phi = {}
+        for idx, a in enumerate(st):
+            if R.is_zero(a):
+                continue
+            f = tuple(int(c) for c in R.bitstring(idx, n))
+            for g, c in fock.s2_apply(f, up_then_down=utd).items():
+                phi[g] = phi.get(g, R.C(0)) + R.C(c) * a
+            phi[f] = phi.get(f, R.C(0)) - R.C(Fraction(pen["S^2"][1])) * a
+        nrm = R.C(0)
+        for g, v in phi.items():
+            nrm = nrm + v * R.n_conj(v)
+        want = want + R.C(pen["S^2"][0]) * nrm
+    env.check_eq(got, want, f"<psi|H_solver - H_molecule|psi> with penalty_terms {sorted(pen)} == sum mu <(O - v)^2>   [{mapping}, up_then_down={utd}]")
+
+
 def h_refstate(env, patt):
     """solver given a reference-state override: the symmetry expectation must refer to the same state as the energy"""
     from tangelo.algorithms.variational import BuiltInAnsatze
@@ -245,6 +312,22 @@ def shapes(tier, seed):
         if mp.lower() == "jw":
             out.append(Shape(f"symmetry/S2/H2/{mp}/utd={int(utd)}", h_symmetry,
                              dict(opts=dict(molecule_key="H2", qubit_mapping=mp, up_then_down=utd, ansatz=BuiltInAnsatze.UCCSD), patt="ss", n=n, which="S^2"),
+                             modules=MODS, max_paths=64))
+    from fractions import Fraction as Fr
+    for mp, utd in [("jw", False), ("jw", True), ("bk", True), ("scbk", True), ("jkmn", False)] + ([("bk", False), ("jkmn", True), ("scbk", False)] if tier == "thorough" else []):
+        n = 2 if mp.lower() == "scbk" else 4
+        pens = [dict(N=(Fr(3, 2), 1), Sz=(Fr(3, 4), Fr(1, 2)))]      # [prefactor, target value]
+        if mp == "jw":
+            pens.append({"S^2": (Fr(1, 4), 2), "Sz": (Fr(1, 2), Fr(-1, 2))})
+        for pi, pen in enumerate(pens):
+            out.append(Shape(f"penalty/H2/{mp}/utd={int(utd)}/{'+'.join(sorted(pen))}", h_penalty,
+                             dict(opts=dict(molecule_key="H2", qubit_mapping=mp, up_then_down=utd, ansatz=BuiltInAnsatze.UCCSD), patt="ss", n=n, pen=pen),
+                             modules=MODS, max_paths=64))
+    # frozen-orbital molecule (active electron number differs from the total): 6 spin-orbitals
+    for mp, utd, n in (("scbk", True, 4), ("jw", False, 6), ("bk", True, 6)):
+        for which in ("N", "Sz"):
+            out.append(Shape(f"symmetry/{which}/H4f/{mp}/utd={int(utd)}", h_symmetry,
+                             dict(opts=dict(molecule_key="H4f", qubit_mapping=mp, up_then_down=utd, ansatz=BuiltInAnsatze.UCCSD), patt=None, n=n, which=which),
                              modules=MODS, max_paths=64))
     out.append(Shape("energy/hea/qubitH", h_energy, dict(opts=dict(ansatz=BuiltInAnsatze.HEA, ansatz_options={"n_qubits": 2, "n_layers": 1, "reference_state": "zero"}),
                                                          patt="sss" + "0" * 9, n=2, hkind="hea"), modules=MODS, max_paths=64))
